@@ -165,6 +165,11 @@ type nextConn struct {
 	pipe *io.PipeWriter
 }
 
+// CloseWrite forwards the half-close to the teed connection.
+func (nc nextConn) CloseWrite() error {
+	return layer4.CloseWrite(nc.Conn)
+}
+
 func (nc nextConn) Read(p []byte) (n int, err error) {
 	n, err = nc.Reader.Read(p)
 	if err == io.EOF {
